@@ -920,6 +920,63 @@ func runC03(p *core.Prog, r *core.Report, tier string) {
 		r.Floor("C03.q scheduling calls with a current-slot exclusion", nNC, 8)
 	}
 
+	// ---- (u) the loops over the duties in the scheduling functions are left only by exhaustion: one duty that is not
+	// scheduled (a passed slot, the slot under way) must not end the scheduling of the others ----
+	{
+		nDL := 0
+		for _, f := range fns {
+			if f.Parent() != nil || !(f.Name() == "scheduleProposals" || f.Name() == "scheduleAttestations") {
+				continue
+			}
+			for _, l := range p.Loops(f) {
+				if l.RangeExpr() == nil {
+					continue
+				}
+				nDL++
+				noEarlyExit(p, r, "C03.u", l, "duty scheduling loop")
+			}
+		}
+		r.Floor("C03.u duty loops in the scheduling functions", nDL, 2)
+	}
+
+	// ---- (v) at start-up the next sync committee period is set up whenever the epoch tick that would do it has passed:
+	// the ticker acts at exactly syncCommitteePreparationEpochs before the period, so the start-up test is "<=" that
+	// distance (with "<", a start inside that one epoch leaves the whole next period without jobs) ----
+	{
+		nSU := 0
+		for _, f := range fns {
+			if outermost(f).Name() != "New" && outermost(f).Name() != "handleAltairForkEpoch" {
+				continue
+			}
+			core.EachInstr(f, func(in ssa.Instruction) {
+				iff, ok := in.(*ssa.If)
+				if !ok {
+					return
+				}
+				c := core.DecodeCond(ds, iff)
+				if c.Op == "" {
+					return
+				}
+				prepSide := func(d *core.VD) bool {
+					return d.String() == "global:syncCommitteePreparationEpochs" || strings.HasSuffix(d.String(), "syncCommitteePreparationEpochs")
+				}
+				var rel string
+				switch {
+				case prepSide(c.Y) && c.X.Kind == "binop" && c.X.Name == "-":
+					rel = c.RelOnEdge(0)
+				case prepSide(c.X) && c.Y.Kind == "binop" && c.Y.Name == "-":
+					rel = core.FlipRel(c.RelOnEdge(0))
+				default:
+					return
+				}
+				nSU++
+				r.Check(rel == "<=", "C03.v", fmt.Sprintf("%s|next-period-at-start#%d", outermost(f).Name(), nSU), p.Pos(core.IfPos(iff)), "the next period is set up when it starts in at most syncCommitteePreparationEpochs epochs",
+					"the next sync committee period is set up at start only when its distance is '"+rel+"' syncCommitteePreparationEpochs, expected '<=': started in the epoch in which the ticker would have acted, nothing sets the period up and its members send no messages")
+			})
+		}
+		r.Floor("C03.v start-up tests of the next sync committee period", nSU, 2)
+	}
+
 	// ---- (r) a job that prepares an epoch is named after the epoch it prepares: the refresh paths ask the scheduler
 	// whether "Prepare for epoch N" exists to decide whether epoch N is still to be set up ----
 	{
